@@ -36,10 +36,19 @@ Out(c) == [n |-> N, parent |-> c.w.parent, kind |-> c.w.kind, seq |-> c.s,
 \* intrinsically invalid block sent twice in a row.  It holds, for every tree shape and every
 \* placement of <= MaxInvalid invalid blocks, the retry, the child and the sibling of a rejected
 \* block and the valid child / sibling imported right after a rejection.
-RECURSIVE CoreSeq(_, _)
-CoreSeq(w, x) == IF x > N THEN <<>>
-                 ELSE (IF w.kind[x] = "ok" THEN <<x>> ELSE <<x, x>>) \o CoreSeq(w, x + 1)
-CoreS == IF Core THEN SetToSeq({[w |-> w, s |-> CoreSeq(w, 1)] : w \in Worlds}) ELSE <<>>
+RECURSIVE CoreSeq(_, _, _)
+CoreSeq(w, order, i) == IF i > Len(order) THEN <<>>
+                        ELSE (IF w.kind[order[i]] = "ok" THEN <<order[i]>> ELSE <<order[i], order[i]>>)
+                             \o CoreSeq(w, order, i + 1)
+InOrder == [i \in 1..N |-> i]
+\* with the ancestry list in use also block 1 last: the later blocks are committed (or rejected on a
+\* fork) first and the oldest block arrives as a late fork block, which the node refuses or not
+\* according to the newest entry of its ancestry list
+Rotated == [i \in 1..N |-> IF i = N THEN 1 ELSE i + 1]
+CoreS == IF ~Core THEN <<>>
+         ELSE SetToSeq({[w |-> w, s |-> CoreSeq(w, InOrder, 1)] : w \in Worlds})
+              \o (IF N = 1 THEN <<>>
+                  ELSE SetToSeq({[w |-> w, s |-> CoreSeq(w, Rotated, 1)] : w \in {v \in Worlds : v.anc}}))
 Cases == [i \in 1..Len(CoreS) |-> Out(CoreS[i])] \o [i \in 1..Len(Kept) |-> Out(Kept[i].c)]
 
 ASSUME ndJsonSerialize(OutFile, Cases)
